@@ -256,10 +256,12 @@ fn rename_case(rng: &mut Rng) -> Case {
             ops.push(Op::Union(0, 1));
         }
         (ops, "slotarith")
+    } else if rng.chance(1, 6) {
+        (gen_symred4(rng), "symred4")
     } else {
         loop {
             let (ops, stream) = gen_history(rng);
-            if !want_sym || matches!(stream, "inherit" | "symred" | "deepsym" | "symmetry" | "upmerge") {
+            if !want_sym || matches!(stream, "inherit" | "symred" | "deepsym" | "symmetry" | "upmerge" | "symred4") {
                 break (ops, stream);
             }
         }
